@@ -227,7 +227,10 @@ def visitE (cfg : Config) : Expr → Nat → RE
       let (e1, d1, n1) ← visitE cfg e n
       let (e2, h1, n2) := ensure cfg "UnaryOp" "operand" e1 n1
       pure (.unary i op e2, d1 ++ h1, n2)
-  | .binop i op l r, n => do                                 -- visit_BinOp: strict
+  | .binop i op l r, n =>                                    -- visit_BinOp: strict
+      -- `_is_trivial` does not list `ast.MatMult`: a configuration selecting the *operator* child makes the
+      -- code emit `tmp = @` (not Python); outside the model
+      if op == "MatMult" && shouldTransform cfg "BinOp" "op" "MatMult" then .error (.unsupported "BinOp.op") else do
       let (l1, d1, n1) ← visitE cfg l n
       let (r1, d2, n2) ← visitE cfg r n1
       let (l2, h1, n3) := ensure cfg "BinOp" "left" l1 n2
